@@ -106,7 +106,8 @@ fn one_to_one_case(c: char) -> Option<char> {
 
 fn accented_function_words(lang: &str) -> Vec<&'static str> {
     match lang {
-        "de" | "xd" => vec!["für", "während", "bloß", "über", "Für", "BLOSS"],
+        "de" => vec!["für", "während", "bloß", "über", "Für", "BLOSS"],
+        "xd" => vec!["für", "während", "über", "Für"],
         "fr" => vec!["à", "où", "après", "derrière", "malgré", "opposé", "ô", "À"],
         "es" => vec!["según", "más", "próximo", "vía", "Más"],
         "pt" => vec!["não", "às", "até", "além", "atrás", "porém", "então", "próximo"],
@@ -406,6 +407,13 @@ impl Prop for Token {
                     _ => gen::hostile(&mut cx.rng, 60),
                 };
                 check_both(cx, lang, &lobj, &text);
+                // the same language object is handed the once-composed spelling of that text next (a text that equals what
+                // the previous call produced)
+                let once: String = oracle::compose(lang, &cv(&text)).into_iter().collect();
+                if once != text {
+                    check_both(cx, lang, &lobj, &once);
+                    cx.count("texts followed by their own once-composed spelling");
+                }
                 give_lang(lang, lobj);
                 cx.count("random hostile strings");
             }
